@@ -1,5 +1,9 @@
 import Cfdm.Driver.Parse
 import Cfdm.Model.Subsample
+import Cfdm.Model.SubsampleIx
+import Cfdm.Model.SubsampleParam
+import Cfdm.Model.SubsampleRead
+import Cfdm.Driver.C16Geo
 /-
 Driver for C16.
 
@@ -10,10 +14,19 @@ Driver for C16.
   C16.r2 b=0|1 n0=… n1=… t0=[…] t1=[…] den=D scale=L tp=[row;…]
       two subsampled dimensions (bi_linear); each row is the row-major (len t0 × len t1) matrix
       → shape=[R,N0,N1] (b=1: [R,N0,N1,4]) data=[…]
+      instead of `w=`: wp=[flat data] ws=[shape] wd=[parameter_dimensions] xs=[sizes of the
+      non-interpolated tie point dimensions] pos=P (position of the subsampled dimension in the tie
+      point array): the parameter as stored, conformed and selected by the model
+      (`raised:ValueError` when the selection is empty)
+  C16.g1 / C16.g2   as r1 / r2 plus xs=[…] and ix=[sel;sel;…] over the canonical dimensions
+      (non-interpolated…, subsampled…, [bounds]); sel = s:start:stop:step (`_` = None) | l:i,j,…
+      → shape=[…] data=[…] of `SubsampledArray.__getitem__(ix)`
+  C16.rd dims=[…] tpm=[tokens] sizes=[name:size,…] pv=[term=var=dim,dim;…] b=0|1 ci=[tokens]
+      → what the reader hands to SubsampledArray: shape, tie point indices, parameter dimensions
   C16.sub t=[…]    → the per-subarea bookkeeping (level-2 intermediate)
 -/
 namespace Cfdm.Driver.C16
-open Cfdm.Driver Cfdm.Subsample
+open Cfdm.Driver Cfdm.Subsample Cfdm.PySlice
 
 def parseRow (s : String) : Option (List Int) :=
   if s.isEmpty then some [] else (splitOnChar s ',').mapM parseInt?
@@ -43,36 +56,84 @@ def chunk {α} (k : Nat) : Nat → List α → List (List α)
   | 0, _ => []
   | n + 1, l => l.take k :: chunk k n (l.drop k)
 
-def runR1 (kv : KV) : String :=
-  match (do
-    let m ← kv.get? "m"
-    let b ← parseBool (← kv.get? "b")
-    let n ← (← kv.get? "n").toNat?
-    let t ← parseNatList (← kv.get? "t")
-    let den ← (← kv.get? "den").toNat?
-    let scale ← (← kv.get? "scale").toNat?
-    let tp ← parseRows (← kv.get? "tp")
+/-- All multi-indices of the non-interpolated dimensions (row-major = canonical row order),
+each widened to tie point dimension order with a dummy at the subsampled position(s). -/
+def rowIndices (xs : List Nat) (poss : List Nat) : List (List Nat) :=
+  (Cfdm.Arr.allIdx xs).map (fun e => poss.foldl (fun l p => l.take p ++ 0 :: l.drop p) e)
+
+structure R1Args where
+  m : String
+  b : Bool
+  n : Nat
+  t : List Nat
+  scale : Nat
+  tp : List (List Rat)
+  /-- per row: the coefficients per subarea; `none` = no parameter; inner `none` = empty selection -/
+  w : List (Option (Option (List Rat)))
+
+def parseR1 (kv : KV) : Option R1Args := do
+  let m ← kv.get? "m"
+  let b ← parseBool (← kv.get? "b")
+  let n ← (← kv.get? "n").toNat?
+  let t ← parseNatList (← kv.get? "t")
+  let den ← (← kv.get? "den").toNat?
+  let scale ← (← kv.get? "scale").toNat?
+  let tp ← parseRows (← kv.get? "tp")
+  if den == 0 || scale == 0 then none
+  if !(tp.all (fun r => r.length == t.length)) then none
+  if m != "linear" && m != "quadratic" then none
+  let tpr := tp.map (fun r => r.map (toRat den))
+  match kv.get? "wp" with
+  | some wpS =>
+    -- the parameter as stored
+    if m == "linear" then none
+    let wp ← parseRow ((← stripBrackets wpS))
+    let ws ← parseNatList (← kv.get? "ws")
+    let wd ← parseNatList (← kv.get? "wd")
+    let xs ← parseNatList (← kv.get? "xs")
+    let pos ← (← kv.get? "pos").toNat?
+    if ws.length != wd.length then none
+    if wp.length != ws.foldl (· * ·) 1 then none
+    if pos > xs.length then none
+    let rows := rowIndices xs [pos]
+    if rows.length != tp.length then none
+    let D := xs.length + 1
+    let tpShape := (xs.take pos) ++ t.length :: (xs.drop pos)
+    let P := ofFlat ws (wp.map (toRat den))
+    let nsub := (subs t).length
+    some { m, b, n, t, scale, tp := tpr,
+           w := rows.map (fun e => some (paramRow true D wd P tpShape pos nsub e)) }
+  | none =>
     let wS ← kv.get? "w"
     let w ← if wS == "-" then some none else (parseRows wS).map some
-    if den == 0 || scale == 0 then none
-    if !(tp.all (fun r => r.length == t.length)) then none
-    if m != "linear" && m != "quadratic" then none
     if m == "linear" && w.isSome then none
     match w with
-    | some ws => if ws.length != tp.length then none
-    | none => pure ()
-    some (m, b, n, t, den, scale, tp, w)) with
+    | some ws =>
+      if ws.length != tp.length then none
+      some { m, b, n, t, scale, tp := tpr, w := ws.map (fun r => some (some (r.map (toRat den)))) }
+    | none => some { m, b, n, t, scale, tp := tpr, w := tp.map (fun _ => none) }
+
+def r1Method (a : R1Args) (r : Nat) : Option Method :=
+  if a.m == "linear" then some linearM
+  else match a.w.getD r none with
+    | none => some (quadraticM none)
+    | some none => none
+    | some (some l) => some (quadraticM (some l))
+
+def runR1 (kv : KV) : String :=
+  match parseR1 kv with
   | none => "bad-op"
-  | some (m, b, n, t, den, scale, tp, w) =>
-    let rows := (List.range tp.length).map (fun r =>
-      let tpr := (tp.getD r []).map (toRat den)
-      let F : Method :=
-        if m == "linear" then linearM
-        else quadraticM (w.map (fun ws => (ws.getD r []).map (toRat den)))
-      if b then (recon1b F n t tpr).flatMap (showCell scale 2)
-      else (recon1 F n t tpr).map (showOpt scale))
-    let shape := if b then [tp.length, n, 2] else [tp.length, n]
-    s!"shape={showNatList shape} data=[{String.intercalate "," rows.flatten}]"
+  | some a =>
+    match (List.range a.tp.length).mapM (r1Method a) with
+    | none => "raised:ValueError"
+    | some Fs =>
+      let rows := (List.range a.tp.length).map (fun r =>
+        let tpr := a.tp.getD r []
+        let F := Fs.getD r linearM
+        if a.b then (recon1b F a.n a.t tpr).flatMap (showCell a.scale 2)
+        else (recon1 F a.n a.t tpr).map (showOpt a.scale))
+      let shape := if a.b then [a.tp.length, a.n, 2] else [a.tp.length, a.n]
+      s!"shape={showNatList shape} data=[{String.intercalate "," rows.flatten}]"
 
 def runR2 (kv : KV) : String :=
   match (do
@@ -96,6 +157,142 @@ def runR2 (kv : KV) : String :=
     let shape := if b then [tp.length, n0, n1, 4] else [tp.length, n0, n1]
     s!"shape={showNatList shape} data=[{String.intercalate "," rows.flatten}]"
 
+/-! ### `__getitem__` -/
+
+def parseSel (s : String) : Option Sel :=
+  match splitOnChar s ':' with
+  | ["s", a, b, c] => do some (.slice (← parseOptInt? a) (← parseOptInt? b) (← parseOptInt? c))
+  | ["l", l] => if l.isEmpty then some (.list []) else ((splitOnChar l ',').mapM parseInt?).map .list
+  | _ => none
+
+def parseSels (s : String) : Option (List Sel) := do
+  let inner ← stripBrackets s
+  if inner.isEmpty then some [] else (splitOnChar inner ';').mapM parseSel
+
+/-- The selected rows (flat indices, product order) for the selectors of the non-interpolated
+dimensions. -/
+def selRows (xs : List Nat) (xsel : List Sel) : List Nat :=
+  let pos := (List.zip xs xsel).map (fun (n, s) => (s.positions n).map Int.toNat)
+  let rec prod : List (List Nat) → List (List Nat)
+    | [] => [[]]
+    | l :: ls => l.flatMap (fun i => (prod ls).map (fun r => i :: r))
+  (prod pos).map (Cfdm.Arr.ravel xs)
+
+def runG1 (kv : KV) : String :=
+  match (do
+    let a ← parseR1 kv
+    let xs ← parseNatList (← kv.get? "xs")
+    let ix ← parseSels (← kv.get? "ix")
+    if ix.length != xs.length + 1 + (if a.b then 1 else 0) then none
+    if xs.foldl (· * ·) 1 != a.tp.length then none
+    if !((List.zip (xs ++ [a.n] ++ (if a.b then [2] else [])) ix).all (fun (n, s) => s.wf n)) then none
+    some (a, xs, ix)) with
+  | none => "bad-op"
+  | some (a, xs, ix) =>
+    match (List.range a.tp.length).mapM (r1Method a) with
+    | none => "raised:ValueError"
+    | some Fs =>
+      let xsel := ix.take xs.length
+      let ix0 := ix.getD xs.length firstSel
+      let ixb := ix.getD (xs.length + 1) firstSel
+      let shortcut := allFirst ix || allLast ix
+      -- the shortcut needs EVERY index element to match; otherwise the general path is taken
+      let rows := if allFirst ix then [0] else if allLast ix then [a.tp.length - 1] else selRows xs xsel
+      let out := rows.map (fun r =>
+        let tpr := a.tp.getD r []
+        let F := Fs.getD r linearM
+        if a.b then
+          let cells := if shortcut then getitem1b F a.n a.t tpr ix0 ixb
+            else (sub1 none (recon1b F a.n a.t tpr) a.n ix0).map (fun c =>
+              gather none (cellList 2 c) (ixb.positions 2))
+          (cells.length, cells.flatten.map (showOpt a.scale))
+        else
+          let vals := if shortcut then getitem1 F a.n a.t tpr ix0
+            else sub1 none (recon1 F a.n a.t tpr) a.n ix0
+          (vals.length, vals.map (showOpt a.scale)))
+      let n0 := (out.head?.map (·.1)).getD ((ix0.positions a.n).length)
+      let xshape := if shortcut then xs.map (fun _ => 1)
+        else (List.zip xs xsel).map (fun (n, s) => (s.positions n).length)
+      let shape := xshape ++ [n0] ++ (if a.b then [(ixb.positions 2).length] else [])
+      s!"shape={showNatList shape} data=[{String.intercalate "," (out.map (·.2)).flatten}]"
+
+def runG2 (kv : KV) : String :=
+  match (do
+    let b ← parseBool (← kv.get? "b")
+    let n0 ← (← kv.get? "n0").toNat?
+    let n1 ← (← kv.get? "n1").toNat?
+    let t0 ← parseNatList (← kv.get? "t0")
+    let t1 ← parseNatList (← kv.get? "t1")
+    let den ← (← kv.get? "den").toNat?
+    let scale ← (← kv.get? "scale").toNat?
+    let tp ← parseRows (← kv.get? "tp")
+    let xs ← parseNatList (← kv.get? "xs")
+    let ix ← parseSels (← kv.get? "ix")
+    if den == 0 || scale == 0 then none
+    if !(tp.all (fun r => r.length == t0.length * t1.length)) then none
+    if ix.length != xs.length + 2 + (if b then 1 else 0) then none
+    if xs.foldl (· * ·) 1 != tp.length then none
+    if !((List.zip (xs ++ [n0, n1] ++ (if b then [4] else [])) ix).all (fun (n, s) => s.wf n)) then none
+    some (b, n0, n1, t0, t1, den, scale, tp, xs, ix)) with
+  | none => "bad-op"
+  | some (b, n0, n1, t0, t1, den, scale, tp, xs, ix) =>
+    let xsel := ix.take xs.length
+    let ix0 := ix.getD xs.length firstSel
+    let ix1 := ix.getD (xs.length + 1) firstSel
+    let ixb := ix.getD (xs.length + 2) firstSel
+    -- bounds over two subsampled dimensions never take the shortcut
+    let shortcut := !b && (allFirst ix || allLast ix)
+    let rows := if shortcut && allFirst ix then [0] else if shortcut then [tp.length - 1] else selRows xs xsel
+    let out := rows.map (fun r =>
+      let m := chunk t1.length t0.length ((tp.getD r []).map (toRat den))
+      if b then
+        ((getitem2b n0 n1 t0 t1 m ix0 ix1 ixb).flatMap (fun row => row.flatten)).map (showOpt scale)
+      else
+        let vals := if shortcut then getitem2 n0 n1 t0 t1 m ix0 ix1
+          else sub2 none (recon2 n0 n1 t0 t1 m) n0 n1 ix0 ix1
+        vals.flatten.map (showOpt scale))
+    let xshape := if shortcut then xs.map (fun _ => 1)
+      else (List.zip xs xsel).map (fun (n, s) => (s.positions n).length)
+    let sshape := if shortcut then [1, 1] else [(ix0.positions n0).length, (ix1.positions n1).length]
+    let shape := xshape ++ sshape ++ (if b then [(ixb.positions 4).length] else [])
+    s!"shape={showNatList shape} data=[{String.intercalate "," out.flatten}]"
+
+/-! ### the reader -/
+
+def parseStrList (s : String) : Option (List String) := do
+  let inner ← stripBrackets s
+  if inner.isEmpty then some [] else some (splitOnChar inner ',')
+
+def runRd (kv : KV) : String :=
+  match (do
+    let dims ← parseStrList (← kv.get? "dims")
+    let tpm ← parseStrList (← kv.get? "tpm")
+    let sizesS ← parseStrList (← kv.get? "sizes")
+    let sizes ← sizesS.mapM (fun x => match splitOnChar x ':' with
+      | [k, v] => v.toNat?.map (fun n => (k, n))
+      | _ => none)
+    let b ← parseBool (← kv.get? "b")
+    let pvS ← stripBrackets (← kv.get? "pv")
+    let pv ← (if pvS.isEmpty then some [] else (splitOnChar pvS ';').mapM (fun x =>
+      match splitOnChar x '=' with
+      | [term, var, ds] => some (term, var, if ds.isEmpty then [] else splitOnChar ds ',')
+      | _ => none))
+    let ci ← parseStrList (← kv.get? "ci")
+    let ip ← parseStrList (← kv.get? "ip")
+    some (dims, tpm, sizes, b, pv, ci, ip)) with
+  | none => "bad-op"
+  | some (dims, tpm, sizes, b, pv, ci, ip) =>
+    let rec_ := subsampledRecord (parseX (tpm.map lexTok))
+    let shape := readShape rec_ dims sizes b
+    let tpi := (readTiePointIndices rec_ dims).map (fun (i, v) => s!"{i}:{v}")
+    -- interpolation_parameters: term -> variable; the variable's dimensions come from `pv`
+    let terms := (parseX (ip.map lexTok)).map (fun (term, vars) => (term, vars.headD ""))
+    let pd := terms.map (fun (term, var) =>
+      let ds := ((pv.find? (fun x => x.2.1 == var)).map (·.2.2)).getD []
+      s!"{term}:" ++ String.intercalate "," ((readParameterDimensions rec_ dims ds).map toString))
+    let cis := (coordInterp (ci.map lexCTok)).map (fun (iv, cs) => s!"{iv}:" ++ String.intercalate "," cs)
+    s!"shape={showNatList shape} tpi=[{String.intercalate ";" tpi}] pd=[{String.intercalate ";" pd}] ci=[{String.intercalate ";" cis}]"
+
 def showSub (s : Sub) : String :=
   s!"u:{s.uStart}:{s.uStop},n:{s.size},c:{s.tp}:{s.tp + 2},f:{if s.first then 1 else 0},j:{s.loc}"
 
@@ -108,6 +305,11 @@ def run (sub : String) (kv : KV) : String :=
   match sub with
   | "r1" => runR1 kv
   | "r2" => runR2 kv
+  | "g1" => runG1 kv
+  | "g2" => runG2 kv
+  | "rd" => runRd kv
+  | "q1" => C16Geo.runQ1 kv
+  | "q2" => C16Geo.runQ2 kv
   | "sub" => runSub kv
   | _ => "bad-op"
 
